@@ -205,9 +205,21 @@ def op_fresh_key(st, hid):
 
 
 def op_state_size(st, hid):
-    """picklable per-object state: length of the pickle (must not grow when a
-    hash or a key has been computed)"""
-    return len(pickle.dumps(st.h[hid], protocol=4))
+    """picklable per-object state of the pytato objects: length of the pickle
+    (must not grow when a hash or a key has been computed).  loopy translation
+    units are left out: loopy's targets cache their own hash in their pickled
+    state, which is loopy's business, not pytato's."""
+    import io
+    import loopy as lp
+
+    class P(pickle.Pickler):
+        def persistent_id(self, obj):
+            if isinstance(obj, lp.TranslationUnit):
+                return "translation-unit"
+            return None
+    buf = io.BytesIO()
+    P(buf, protocol=4).dump(st.h[hid])
+    return len(buf.getvalue())
 
 
 def op_drop(st, hid):
@@ -348,3 +360,7 @@ def op_check(st, seed, with_keys=True, max_pairs=400):
 # }}}
 
 # vim: foldmethod=marker
+
+
+def op_canon_text(st, hid, mode="identity", scalar_types=False):
+    return walker.canon_text(st.h[hid], mode, scalar_types=scalar_types)
